@@ -91,7 +91,7 @@ def gen_series(rng, nmin, nmax, odd=None):
     return {"n": n, "ch": ch, "unit": unit, "t0": fh(t0), "spec": spec, "data": data_json(make_data(rng, n, ch))}
 
 
-VARIANTS = ["plain", "plain", "plain", "fortran", "strided", "uniformtime", "positional", "npscalars", "copied"]
+VARIANTS = ["plain", "plain", "plain", "fortran", "strided", "uniformtime", "positional", "npscalars", "copied", "int64"]
 
 
 def vary_array(d, variant):
@@ -103,6 +103,8 @@ def vary_array(d, variant):
         big = np.zeros(d.shape[:-1] + (2 * d.shape[-1],))
         big[..., ::2] = d
         return big[..., ::2]                 # non-contiguous view
+    if variant == "int64" and np.all(d == np.round(d)) and np.all(np.abs(d) < 2.0 ** 52):
+        return d.astype(np.int64)            # integer dtype (only when the values are whole numbers)
     if variant == "copied":
         return (d + 0).view(np.ndarray)[...]  # ufunc result, viewed
     return d
@@ -835,6 +837,10 @@ def gen_scenario(rng, nmax, i):
         s["cfg"]["call"] = v
     elif v != "plain":
         s["variant"] = v
+    if v == "int64":                          # whole-number data, handed over with an integer dtype
+        d = data_from(s["data"])
+        m = float(np.max(np.abs(d))) or 1.0
+        s["data"] = data_json(np.round(d / m * 1000.0))
     return s
 
 
@@ -1078,7 +1084,7 @@ def run(ctx):
         assumptions=["FIR/IIR pass-band gain, zero phase and stop-band attenuation are tested on probe sinusoids only (partial by design)",
                      "band edges within float rounding of a grid frequency are excluded from K (the float comparison is not modelled); "
                      "edges exactly on representable grid frequencies are included (a tie whose float grid value k*step is itself rounded decides nothing, in K and in the oracle)",
-                     "integer-valued data arrays are outside the quantifier (fir/iir/boxcar truncate them; observed, not checked)",
+                     "integer-dtype data (whole-number values) are included as an input variant since 48a227c / af89e6b (fir, iir, filtfilt and boxcar_filter no longer truncate them); before those commits they were outside what held",
                      "iir with lb = 0 and ub = Nyquist (no filter setting) is rejected by scipy.signal.iirdesign; not counted"])
 
 
